@@ -157,7 +157,24 @@ pub fn random_input(rng: &mut impl Rng, max_chars: usize) -> String {
     while n < target {
         let piece: String = match rng.gen_range(0..100) {
             0..=17 => [" ", "\t", "\r", "\n", "  ", " \n "][rng.gen_range(0..6)].to_string(),
-            18..=29 => {
+            18..=19 => {
+                // long literals: the integer part alone (nearly) fills the 96-bit mantissa, then a fraction, then well- or ill-formed tails
+                let mut d = String::new();
+                for k in 0..rng.gen_range(17..31) {
+                    d.push(b"0123456789"[rng.gen_range(if k == 0 { 1 } else { 0 }..10)] as char);
+                }
+                if rng.gen_bool(0.8) {
+                    d.push('.');
+                    for _ in 0..rng.gen_range(0..31) {
+                        d.push(b"0123456789"[rng.gen_range(0..10)] as char);
+                    }
+                }
+                if rng.gen_bool(0.5) {
+                    d.push_str([".5", ".", "e5", "e", "E+3", ".5.5", "..", "e-"][rng.gen_range(0..8)]);
+                }
+                d
+            }
+            20..=29 => {
                 let mut d = String::new();
                 for _ in 0..rng.gen_range(1..6) {
                     d.push(b"0123456789"[rng.gen_range(0..10)] as char);
